@@ -53,6 +53,11 @@ namespace ss
             }
         }
 
+    } // namespace
+    extern bool     g_static_user_enabled; // static_user.cpp
+    extern unsigned g_static_user_ran;
+    namespace
+    {
         // constructed before, destroyed after every static of the library: sees the final upstream balance
         struct ExitAccounting
         {
@@ -60,8 +65,8 @@ namespace ss
             {
                 if (g_report_fd < 0)
                     return;
-                report("EXIT live=%zu leak_calls=%lu leak_amount=%ld\n",
-                       SimHeap::get().live_count(OWNER_MALLOC), g_leak_calls, g_leak_amount);
+                report("EXIT live=%zu leak_calls=%lu leak_amount=%ld su=%u\n",
+                       SimHeap::get().live_count(OWNER_MALLOC), g_leak_calls, g_leak_amount, g_static_user_ran);
             }
         };
         ExitAccounting g_exit_accounting __attribute__((init_priority(101)));
@@ -374,6 +379,7 @@ namespace ss
         [[noreturn]] void child(const Plan& plan, int fd)
         {
             g_report_fd = fd;
+            g_static_user_enabled = plan.num("exit_user", 0) != 0;
             fm::set_leak_handler(
                 [](const fm::allocator_info&, std::ptrdiff_t amount)
                 {
@@ -502,6 +508,11 @@ namespace ss
             bad("child_crash_exit", "the child did not reach the end of static destruction");
             return;
         }
+        unsigned su = 0;
+        if (auto sp = std::strstr(exl.c_str(), "su="))
+            su = unsigned(std::atoi(sp + 3));
+        if (su)
+            stats().hit("reach.static_object_used_temporary_allocator_at_exit");
         if (live != 0 || lc != 0)
         {
             char b[200];
